@@ -79,3 +79,55 @@ Print Assumptions C17_unfixed_panics_refuted.
 
 (* C17_other_phases_partial (stated, not proved): in the GetCommitReports and Filter phases the plugin does not
    truncate at all; the only bound there is the reader's limit of 1000 commit reports. Not modelled. *)
+
+(* ---- the executable properties of Check/C17_check.v are the property (judge soundness) ---- *)
+Require Import Verif.Check.C17_check Verif.Proofs.JudgeSoundC17P.
+
+(* consistentb is [consistent] of C17_consistent (and: the chain keys that are left are unique) *)
+Theorem C17_judge_consistentb_sound : forall o0 o,
+  toks_have_msgs o0 -> consistentb o0 o = true -> consistent o0 o /\ NoDup (tkeys (t_commits o)).
+Proof. exact consistentb_sound. Qed.
+Print Assumptions C17_judge_consistentb_sound.
+
+(* for originals with token data under message-less keys the executable clause skips the token-data component only *)
+Theorem C17_judge_consistentb_sound_but_toks : forall o0 o,
+  consistentb o0 o = true ->
+  let p := project o0 (t_commits o) in
+  t_msgs o = t_msgs p /\ t_costly o = t_costly p /\ t_nonces o = t_nonces p /\
+  prefixes (t_commits o0) (t_commits o) /\ NoDup (tkeys (t_commits o)).
+Proof. exact consistentb_sound_but_toks. Qed.
+Print Assumptions C17_judge_consistentb_sound_but_toks.
+
+(* sink step (truncateLastCommit / truncateChain on one chain) *)
+Theorem C17_judge_step_model_passes : forall kind c o,
+  NoDup (tkeys (t_commits o)) -> step_ok (kind, c, o) (step_model (kind, c, o)) = true.
+Proof. exact (fun kind c o => step_model_passes (kind, c, o)). Qed.
+Print Assumptions C17_judge_step_model_passes.
+
+Theorem C17_judge_step_sound : forall kind c o r,
+  toks_have_msgs o -> step_ok (kind, c, o) r = true ->
+  exists o', r = Ok o' /\ consistent o o' /\ NoDup (tkeys (t_commits o')) /\
+             forall k l, In (k, l) (t_commits o) -> k <> c -> alookup k (t_commits o') = Some l.
+Proof. exact (fun kind c o => step_sound (kind, c, o)). Qed.
+Print Assumptions C17_judge_step_sound.
+
+(* sinks trunc / observation (truncateObservation at several limits; snd r = real encoded size of the answer) *)
+Theorem C17_judge_trunc_model_passes : forall o tab runs,
+  NoDup (tkeys (t_commits o)) ->
+  (forall run, In run runs -> truncate (size_tab tab) (fst run) (pick_of (snd run)) o <> Spin) ->
+  trunc_ok (o, tab, runs) (trunc_model (o, tab, runs)) = true.
+Proof. exact (fun o tab runs => trunc_model_passes (o, tab, runs)). Qed.
+Print Assumptions C17_judge_trunc_model_passes.
+
+Theorem C17_judge_trunc_sound : forall o tab runs out,
+  toks_have_msgs o -> trunc_ok (o, tab, runs) out = true ->
+  length out = length runs /\
+  forall n run r, nth_error runs n = Some run -> nth_error out n = Some r ->
+    match fst r with
+    | Ok o' => (Z.of_N (snd r) <= fst run)%Z /\ consistent o o' /\
+               ((Z.of_N (size_tab tab o) <= fst run)%Z -> o' = o) /\ (o' = o \/ t_commits o' <> [])
+    | Err => (fst run < Z.of_N (size_tab tab o))%Z
+    | _ => False
+    end.
+Proof. exact (fun o tab runs => trunc_sound (o, tab, runs)). Qed.
+Print Assumptions C17_judge_trunc_sound.
